@@ -14,7 +14,7 @@ from sim import world as W
 
 PROPERTY = "C02"
 LEVEL = "fault_enumeration"
-BUDGET = {"quick": 420, "thorough": 3000}
+BUDGET = {"quick": 480, "thorough": 3000}
 ASSUMPTIONS = [
     "the value a declined rule's result is compared with is obtained from funsor itself by another route "
     "(the fall-through chain, or the same rules on ground instances); a rule that is wrong on every route passes",
